@@ -45,9 +45,12 @@ theorem safe_forBodyP (g : Defs) : ∀ (ds : List Name) (st : List (List Name)) 
   | nil => intro st acc; exact .ret
   | cons d ds ih =>
     intro st acc
-    simp only [forBodyP]
-    refine safe_bind (safe_supG g d) (fun r => ?_)
-    cases r <;> first | exact ih _ _ | exact .ret
+    by_cases hd : d ∈ acc
+    · simp only [forBodyP, hd, if_true]
+      exact ih _ _
+    · simp only [forBodyP, hd, if_false]
+      refine safe_bind (safe_supG g d) (fun r => ?_)
+      cases r <;> first | exact ih _ _ | exact .ret
 
 theorem safe_wlP (g : Defs) : ∀ (fuel : Nat) (st : List (List Name)) (acc : List Name),
     Safe false (wlP g fuel st acc) := by
